@@ -1,4 +1,4 @@
-package checker_test
+package main
 
 // C03: any corruption of repository data is reported, never silently used.
 //
@@ -25,6 +25,8 @@ package checker_test
 //      deletion of a snapshot file (nothing left depends on a deleted snapshot)
 //      and the two files of the dup variant that no snapshot depends on (the
 //      pack holding only the duplicate copy and the index file listing it).
+//      The same is demanded of the real command function runCheck (--read-data,
+//      --no-lock) run on the state: its result must be an error (non-zero exit).
 //  (2) reads never return other bytes: every blob the pristine repository holds
 //      is loaded through LoadBlob -> an error or exactly the pristine plaintext;
 //      every snapshot that still loads is walked (LoadSnapshot, LoadTree,
@@ -62,6 +64,7 @@ import (
 	"github.com/restic/restic/internal/backend/mem"
 	"github.com/restic/restic/internal/checker"
 	"github.com/restic/restic/internal/data"
+	"github.com/restic/restic/internal/global"
 	"github.com/restic/restic/internal/repository"
 	"github.com/restic/restic/internal/restic"
 	"github.com/restic/restic/internal/restorer"
@@ -223,6 +226,7 @@ type verifC03Fixture struct {
 	snapIDs    []restic.ID                     // in backup order
 	unrefPack  map[backend.Handle]bool         // files no snapshot depends on (dup variant: extra pack + its index)
 	restoreDir string                          // scratch directory for oracle (2c); "" = restorer not run
+	tb         testing.TB                      // set together with restoreDir: the real check command is run too
 }
 
 func verifC03SaveDir(t testing.TB, ctx context.Context, up restic.BlobSaver, dir verifC03Dir, prefix string, truth map[string][]byte) restic.ID {
@@ -376,6 +380,8 @@ type verifC03State struct {
 	fails                 []string // oracle (2) failures, "kind: text"
 	readOK                int
 	readErr               int
+	cmdRan                bool
+	cmdErr                error // what `restic check --read-data` returned (nil = exit status 0)
 	restoreOK, restoreErr int
 	restoredFiles         int
 }
@@ -483,6 +489,18 @@ func verifC03Run(f *verifC03Fixture, be backend.Backend, pristine bool) (st veri
 			report("ReadPacks: %v", err)
 		}
 	}()
+
+	// (1b) the verdict of the real command: `restic check --read-data --no-lock` on this state (the
+	// classification above re-states cmd_check.go; the exit status is decided by runCheck itself)
+	if f.tb != nil {
+		gopts := verifGopts(f.tb, f.restoreDir, be, rtest.TestPassword)
+		gopts.NoLock = true
+		st.cmdRan = true
+		st.cmdErr = verifRun(f.tb, ctx, gopts, func(ctx context.Context, gopts global.Options) error {
+			_, err := runCheck(ctx, CheckOptions{ReadData: true}, gopts, nil, gopts.Term)
+			return err
+		})
+	}
 
 	// (2a) every blob
 	if pristine {
@@ -667,8 +685,9 @@ func TestVerif_C03(t *testing.T) {
 		// the set of files and their sizes must be known to enumerate case keys: build once per shard
 		f := get()
 		f.restoreDir = filepath.Join(r.Scratch, "restore-"+v.name)
-		if st := verifC03Run(f, &verifC03BE{files: f.byHandle}, false); st.restoreOK != len(f.snapIDs) || len(st.fails) > 0 {
-			t.Fatalf("fixture %s: restore of the pristine repository: ok=%d fails=%v", v.name, st.restoreOK, st.fails)
+		f.tb = t
+		if st := verifC03Run(f, &verifC03BE{files: f.byHandle}, false); st.restoreOK != len(f.snapIDs) || len(st.fails) > 0 || st.cmdErr != nil {
+			t.Fatalf("fixture %s: pristine repository: restores ok=%d fails=%v, `check --read-data` returned %v", v.name, st.restoreOK, st.fails, st.cmdErr)
 		}
 		evalSite := func(ck string, sites []verifC03Site, label string) {
 			be := &verifC03BE{files: f.byHandle}
@@ -730,6 +749,10 @@ func TestVerif_C03(t *testing.T) {
 			r.Count("restores_without_error_compared", int64(st.restoreOK))
 			r.Count("restores_that_reported_errors", int64(st.restoreErr))
 			r.Count("restored_files_compared_equal", int64(st.restoredFiles))
+			if needReport && st.cmdRan && st.cmdErr == nil {
+				r.Violationf(ck, "C03|"+key+"|unreported-by-command", map[string]any{"variant": v.name, "sites": names},
+					"%s: `restic check --read-data` exits with status 0 although a stored file was damaged (%s) [%s]", label, strings.Join(names, "+"), key)
+			}
 			if needReport && st.opened && !st.reported {
 				r.Violationf(ck, "C03|"+key+"|unreported", map[string]any{"variant": v.name, "sites": names},
 					"%s: the repository opens and check --read-data reports no error although a stored file was damaged (%s) [%s]", label, strings.Join(names, "+"), key)
